@@ -383,6 +383,7 @@ def run(ctx):
     from engine.run import borrow
     borrow(ctx, 'C16', ['OWN-OVERWRITE'], 'a PEAK record parsed from the file that is overwritten by a fresh, zeroed one loses the maxima of the earlier sessions')
     borrow(ctx, 'C09', ['WRAPPER'], 'the SFC_CALC_* commands see exactly what sf_read_double returns: the sibling contract of the read wrappers (clamp at the end of the data in items = frames x channels) is a necessary condition for scanning every stored sample')
+    borrow(ctx, 'C05', ['COUNT-NARROW'], 'a peak scan that receives the length of a long write cut to int looks at a part of the block only (or at nothing): the recorded maximum is not the maximum')
 
     ctx.rule('SEEK-CAP', 'every function installed in the seek slot either has a successful exit for offsets other than 0, or (rewind-only: it ignores its offset, or all its successful returns are '
              'taken for offset == 0) its codec\'s init sets psf->sf.seekable = SF_FALSE: the SFC_CALC_* commands refuse a non-seekable handle, and on a handle that claims to be seekable their '
